@@ -43,6 +43,8 @@ type hreq struct {
 	Ext       map[string]any
 	Header    string // value of an extra request header X-Client
 	APQ       string // "", "register", "hash-only"
+	Accept    string // Accept header ("" = none)
+	RawBody   string // non-empty: this exact POST body (valid JSON of the wrong shape)
 }
 
 func (r hreq) key() string {
@@ -52,7 +54,7 @@ func (r hreq) key() string {
 
 type hresp struct {
 	Status int
-	CType  string
+	CType  string // all response headers, canonically rendered
 	Body   string
 }
 
@@ -70,6 +72,18 @@ var queries = []string{
 	`{ nope }`,
 	`{ hello `,
 	`{ __schema { queryType { name } } }`,
+	`query R($x: Boolean!, $y: Boolean!) { me { owner { id name nick } owner @include(if: $x) { plain } owner @include(if: $y) { plainReq } } }`,
+	`query R2($x: Boolean!, $y: Boolean!) { users { best { id name nick } best @include(if: $x) { plain } best @skip(if: $x) { plainReq } best @include(if: $y) { rank } } }`,
+}
+
+// bodies that are valid JSON but of the wrong shape: answered with a client error, and whatever
+// was decoded from them must not survive into a later request
+var rawBodies = []string{
+	`{"operationName":"Leaked","variables":{"b":"leak","x":true,"y":true},"query":5}`,
+	`{"query":"{ hello }","operationName":"B","variables":"notanobject"}`,
+	`{"extensions":{"trace":"leaked"},"query":["x"]}`,
+	`{"query":"{ maybe }","variables":{"b":"leak"},"extensions":7}`,
+	`[{"query":"{ hello }"}]`,
 }
 
 func sp(s string) *string { return &s }
@@ -90,13 +104,22 @@ func pickReq(t *core.Tape) hreq {
 	case 3:
 		r.OpName = sp("Q")
 	}
-	switch t.Choose(4, "vars") {
+	switch t.Choose(6, "vars") {
 	case 1:
 		r.HasVars, r.Vars = true, map[string]any{"b": "one"}
 	case 2:
 		r.HasVars, r.Vars = true, map[string]any{"b": "two", "s": true}
 	case 3:
 		r.HasVars, r.Vars = true, map[string]any{}
+	case 4:
+		r.HasVars, r.Vars = true, map[string]any{"x": true, "y": false, "b": "xy"}
+	case 5:
+		r.HasVars, r.Vars = true, map[string]any{"x": false, "y": true, "b": "yx"}
+	}
+	r.Accept = []string{"", "application/json", "application/graphql-response+json", "*/*"}[t.Choose(4, "accept")]
+	if r.Transport == "post" && t.Bool(1, 8, "rawbody") {
+		r.RawBody = rawBodies[t.Choose(len(rawBodies), "raw")]
+		r.APQ = "" // the raw body is all there is
 	}
 	switch t.Choose(4, "ext") {
 	case 1:
@@ -108,6 +131,9 @@ func pickReq(t *core.Tape) hreq {
 	}
 	if t.Bool(1, 3, "header") {
 		r.Header = fmt.Sprintf("client-%d", t.Choose(3, "hv"))
+	}
+	if r.RawBody != "" {
+		r.APQ, r.Ext = "", nil // the raw body is all there is
 	}
 	if r.Transport == "graphql" {
 		// application/graphql carries only the query text
@@ -186,6 +212,14 @@ func build(r hreq, ctx context.Context) *http.Request {
 	if r.Header != "" {
 		req.Header.Set("X-Client", r.Header)
 	}
+	if r.Accept != "" && r.Transport != "sse" && r.Transport != "mmixed" {
+		req.Header.Set("Accept", r.Accept)
+	}
+	if r.RawBody != "" {
+		rb := httptest.NewRequest("POST", "/query", strings.NewReader(r.RawBody))
+		rb.Header = req.Header
+		req = rb
+	}
 	return req.WithContext(ctx)
 }
 
@@ -193,8 +227,8 @@ type reqKey struct{}
 
 // newServer builds the server under test; the same construction is used for the long-lived
 // server and for every fresh oracle server.
-func newServer(w *core.World, v *uni.Variant, park bool) (*handler.Server, *uni.Uni) {
-	u := uni.New(w, v, &refexec.Plan{Seed: 11, MaxList: 2, NullPM: 100})
+func newServer(w *core.World, v *uni.Variant, park bool, planSeed uint64) (*handler.Server, *uni.Uni) {
+	u := uni.New(w, v, &refexec.Plan{Seed: planSeed, MaxList: 2, NullPM: int(planSeed%2) * 100})
 	u.Park = park
 	v.SetBlobHook(nil)
 	u.Custom = map[string]func(ctx context.Context, args []reflect.Value) (any, error){
@@ -214,8 +248,9 @@ func newServer(w *core.World, v *uni.Variant, park bool) (*handler.Server, *uni.
 	srv.AddTransport(transport.SSE{})
 	srv.AddTransport(transport.MultipartMixed{})
 	srv.AddTransport(transport.Options{})
-	srv.AddTransport(transport.GET{})
-	srv.AddTransport(transport.POST{})
+	// configured response headers without a Content-Type: the negotiated one is merged per request
+	srv.AddTransport(transport.GET{ResponseHeaders: map[string][]string{"Cache-Control": {"no-store"}}})
+	srv.AddTransport(transport.POST{ResponseHeaders: map[string][]string{"X-Served-By": {"sim"}}})
 	srv.AddTransport(transport.GRAPHQL{})
 	srv.AddTransport(transport.UrlEncodedForm{})
 	srv.AddTransport(transport.MultipartForm{})
@@ -253,7 +288,12 @@ func serve(srv *handler.Server, r hreq, id int) hresp {
 	ctx := context.WithValue(context.Background(), reqKey{}, id)
 	rec := httptest.NewRecorder()
 	srv.ServeHTTP(rec, build(r, ctx))
-	return hresp{Status: rec.Code, CType: rec.Header().Get("Content-Type"), Body: rec.Body.String()}
+	var hs []string
+	for k, vs := range rec.Header() {
+		hs = append(hs, k+"="+strings.Join(vs, ","))
+	}
+	sort.Strings(hs)
+	return hresp{Status: rec.Code, CType: strings.Join(hs, "; "), Body: rec.Body.String()}
 }
 
 // oracle responses are functions of the request alone: cached per process
@@ -265,8 +305,8 @@ var (
 // freshResponse serves r on a fresh server in its own bubble-less context. The package-global
 // sync.Pool of the POST transport is emptied first (two GCs), so that nothing a previous request
 // left there can reach the oracle.
-func freshResponse(w *core.World, v *uni.Variant, r hreq) hresp {
-	k := v.Name + "|" + r.key()
+func freshResponse(w *core.World, v *uni.Variant, r hreq, planSeed uint64) hresp {
+	k := fmt.Sprintf("%s|%d|%s", v.Name, planSeed, r.key())
 	oracleMu.Lock()
 	if o, ok := oracle[k]; ok {
 		oracleMu.Unlock()
@@ -275,7 +315,7 @@ func freshResponse(w *core.World, v *uni.Variant, r hreq) hresp {
 	oracleMu.Unlock()
 	runtime.GC()
 	runtime.GC()
-	srv, _ := newServer(w, v, false)
+	srv, _ := newServer(w, v, false, planSeed)
 	o := serve(srv, r, -1)
 	runtime.GC()
 	runtime.GC()
@@ -289,6 +329,8 @@ func Run(rc *core.RunCtx) {
 	t := rc.Tape
 	w := rc.W
 	v := &probereg.Core[t.Choose(len(probereg.Core), "variant")]
+	// a few resolver-outcome plans (some with nulls), so that no query is blind under all of them
+	planSeed := uint64(10 + t.Choose(4, "planseed"))
 	maxN := 12
 	if rc.Tier == "thorough" {
 		maxN = 25
@@ -299,11 +341,25 @@ func Run(rc *core.RunCtx) {
 	for i := range ws {
 		ws[i] = pickReq(t)
 	}
+	// a frequent special case: the same (cached) document with different variables, so that two
+	// requests walk one AST at the same time
+	sameDoc := t.Bool(1, 5, "same-doc")
+	if sameDoc {
+		q := queries[len(queries)-1-t.Choose(2, "which-r")]
+		a := hreq{Transport: "post", Query: q, HasVars: true, Vars: map[string]any{"x": true, "y": false}}
+		b := hreq{Transport: "post", Query: q, HasVars: true, Vars: map[string]any{"x": false, "y": true}}
+		c := hreq{Transport: "get", Query: q, HasVars: true, Vars: map[string]any{"x": true, "y": true}}
+		ws = []hreq{a, b, c}
+	}
 	reqs := make([]hreq, n)
 	for i := range reqs {
 		reqs[i] = ws[t.Choose(len(ws), "pick")]
 		// vary one optional member of the same text
-		switch t.Choose(5, "vary") {
+		vary := t.Choose(5, "vary")
+		if sameDoc {
+			vary = 0
+		}
+		switch vary {
 		case 1:
 			reqs[i].OpName = nil
 		case 2:
@@ -324,13 +380,13 @@ func Run(rc *core.RunCtx) {
 		if r.APQ == "hash-only" {
 			continue
 		}
-		want[i] = freshResponse(w, v, r)
+		want[i] = freshResponse(w, v, r, planSeed)
 	}
 	runtime.GC()
 	runtime.GC()
 
-	overlapped := t.Bool(1, 2, "overlap")
-	srv, _ := newServer(w, v, overlapped)
+	overlapped := t.Bool(1, 2, "overlap") || sameDoc
+	srv, _ := newServer(w, v, overlapped, planSeed)
 	got := make([]hresp, n)
 	doneCh := make([]chan struct{}, n)
 	launch := func(i int) {
@@ -392,7 +448,7 @@ func Run(rc *core.RunCtx) {
 			// the only permitted memory: either not found, or exactly the registered text
 			alt := r
 			alt.APQ = ""
-			full := freshResponse(w, v, alt)
+			full := freshResponse(w, v, alt, planSeed)
 			nf := strings.Contains(got[i].Body, "PersistedQueryNotFound")
 			if !(nf || got[i].Body == full.Body) {
 				rc.Fail("apq-hash-only-response", r.Transport, "request %d (hash only) answered %s\nwhich is neither PersistedQueryNotFound nor the response of its text %s\nhistory:%s", i, got[i], full, hist())
@@ -414,7 +470,7 @@ func Run(rc *core.RunCtx) {
 			case got[i].Status != want[i].Status:
 				site += "-status"
 			case got[i].CType != want[i].CType:
-				site += "-content-type"
+				site += "-headers"
 			default:
 				site += "-body"
 			}
